@@ -4,7 +4,7 @@ C14 driver: the specification of checkpoint / restore over a key-value map.  Lin
   case <n> <vlog>
   txn k=<id>:<len>|DEL ...   get k   scan   flush   compact   reopen
   checkpoint                 remember the committed state
-  restore                    the state becomes the remembered one
+  restore [k]                the state becomes the remembered one (k: the k-th checkpoint of the case)
   openckpt                   the checkpoint directory opened standalone lists the remembered state
   hist k | ckhist k          (versioned cases) the retained versions of k, newest first, in the store / in the
                              checkpoint directory opened standalone
@@ -14,7 +14,8 @@ C14 driver: the specification of checkpoint / restore over a key-value map.  Lin
 
 structure C14State where
   cur : List (Nat × (Nat × Nat)) := []     -- key ↦ (value id, length), keys ascending
-  saved : List (Nat × (Nat × Nat)) := []
+  saved : List (Nat × (Nat × Nat)) := []   -- the latest checkpoint
+  all : List (List (Nat × (Nat × Nat)) × List (Nat × List (Nat × Nat))) := []   -- every checkpoint of the case, oldest first
   hist : List (Nat × List (Nat × Nat)) := []      -- key ↦ retained versions, newest first (versioned cases)
   savedHist : List (Nat × List (Nat × Nat)) := []
 
@@ -82,8 +83,13 @@ def c14Step (st : C14State) (ws : List String) : C14State × String × String :=
   | ["release"] => same st "ok"
   | ["compact"] => same st "ok"
   | ["reopen"] => same st "ok"
-  | ["checkpoint"] => same { st with saved := st.cur, savedHist := st.hist } "ok"
+  | ["checkpoint"] => same { st with saved := st.cur, savedHist := st.hist, all := st.all ++ [(st.cur, st.hist)] } "ok"
   | ["restore"] => same { st with cur := st.saved, hist := st.savedHist } "ok"
+  | ["restore", k] => match k.toNat? with
+    | some k => match st.all[k - 1]? with
+      | some (c, h) => if k == 0 then same st "bad-op" else same { st with cur := c, hist := h } "ok"
+      | none => same st "bad-op"
+    | none => same st "bad-op"
   | ["openckpt"] => same st (scan14 st.saved)
   | ["hist", k] => match k.toNat? with
     | some k => same st (hist14 (h14Get st.hist k))
